@@ -554,9 +554,41 @@ def rel_wrappers(rel_sigs, cxx=False):
 
 def harness_text(c, sig, gen_text, extra_requires=(), ensures_override=None, canary=True, rel_sigs=None, keep_sigs=None, callee_contracts=None):
     """C file: generated code + contract declaration + harness.  returns (text, {line: clause name})"""
-    L = ['#define LL2C_CBMC 1', gen_text, '#include "specs.h"'] + (rel_wrappers(rel_sigs) if rel_sigs else [])
+    L = ['#define LL2C_CBMC 1', gen_text, '#include "specs.h"']
     params = ['%s %s' % (t, n) for t, n in sig['ins']] + ['%s *%s' % (t, n) for t, n, cnt in sig.get('ptr_ins', [])] + \
         ['%s *%s' % (t, n) for t, n, cnt in sig['outs']]
+    fn_contract = c.fn
+    rel_bufs = []      # (type, name, count) result buffers of the relational counterparts
+    if rel_sigs:
+        # relational contract against another extraction: the function under contract is the JOINT function that runs the
+        # function of this build and its counterpart(s) R_<name> once on the same arguments; the clauses compare the buffers
+        fn_contract = 'J__' + c.fn
+        body = []
+        for rn, rs in rel_sigs.items():
+            rargs = [n for _, n in rs['ins']]
+            for k, (t, on, cnt) in enumerate(rs['outs']):
+                rel_bufs.append((t, 'R_%s__o%d' % (rn, k), cnt))
+                rargs.append('R_%s__o%d' % (rn, k))
+            if rs['ret'] != 'void':
+                rel_bufs.append((rs['ret'], 'R_%s__ret' % rn, 1))
+                body.append('  R_%s__ret[0] = R_%s(%s);' % (rn, rn, ', '.join(rargs)))
+            else:
+                body.append('  R_%s(%s);' % (rn, ', '.join(rargs)))
+        jparams = params + ['%s *%s' % (t, n) for t, n, cnt in rel_bufs]
+        own = ', '.join([n for _, n in sig['ins']] + [n for _, n, _ in sig['outs']])
+        L.append('%s %s(%s) {' % (sig['ret'], fn_contract, ', '.join(jparams) or 'void'))
+        L.extend(body)
+        L.append('  %s%s(%s);' % ('return ' if sig['ret'] != 'void' else '', c.fn, own))
+        L.append('}')
+        params = jparams
+
+    def relrw(e):
+        if not rel_sigs:
+            return e
+        for rn in rel_sigs:
+            e = re.sub(r'\bR_%s__o(\d+)_(\d+)\([^()]*\)' % re.escape(rn), r'R_%s__o\1[\2]' % rn, e)
+            e = re.sub(r'\bR_%s\([^()]*\)' % re.escape(rn), 'R_%s__ret[0]' % rn, e)
+        return e
     # contracts of the callees that are replaced at their call sites (assumed there; enforced by their own obligation in this run)
     for (cc, csig) in (callee_contracts or []):
         cparams = ['%s %s' % (t, n) for t, n in csig['ins']] + ['%s *%s' % (t, n) for t, n, cnt in csig.get('ptr_ins', [])] + \
@@ -570,18 +602,19 @@ def harness_text(c, sig, gen_text, extra_requires=(), ensures_override=None, can
         for name, e in (getattr(cc, 'assumed_ensures', None) or cc.ensures):
             L.append('__CPROVER_ensures(%s)' % clause_expr(e))
         L.append(';')
-    L.append('/* contract for %s (%s) */' % (c.fn, c.real))
-    L.append('%s %s(%s)' % (sig['ret'], c.fn, ', '.join(params) or 'void'))
+    L.append('/* contract for %s (%s) */' % (fn_contract, c.real))
+    L.append('%s %s(%s)' % (sig['ret'], fn_contract, ', '.join(params) or 'void'))
     lines = {}
     for name, e in list(c.requires) + [('extra', x) for x in extra_requires]:
-        L.append('__CPROVER_requires(%s)' % clause_expr(e))
+        L.append('__CPROVER_requires(%s)' % clause_expr(relrw(e)))
     assigns = c.assigns
     if assigns is None:
         assigns = ['__CPROVER_object_whole(%s)' % n for t, n, cnt in sig['outs']]
+    assigns = list(assigns) + ['__CPROVER_object_whole(%s)' % n for t, n, cnt in rel_bufs]
     L.append('__CPROVER_assigns(%s)' % ', '.join(assigns))
     ens = ensures_override if ensures_override is not None else c.ensures
     for name, e in ens:
-        L.append('__CPROVER_ensures(%s)' % clause_expr(e))
+        L.append('__CPROVER_ensures(%s)' % clause_expr(relrw(e)))
         lines[sum(x.count('\n') + 1 for x in L)] = name
     if canary:
         L.append('__CPROVER_ensures(0)')
@@ -609,13 +642,14 @@ def harness_text(c, sig, gen_text, extra_requires=(), ensures_override=None, can
         for i in range(cnt):
             L.append('  %s[%d] = %s;' % (n, i, NONDET[t]))
         args.append(n)
-    for t, n, cnt in sig['outs']:
+    for t, n, cnt in list(sig['outs']) + rel_bufs:
         L.append('  %s %s[%d];' % (t, n, cnt))
         args.append(n)
-    L.append('  %s(%s);' % (c.fn, ', '.join(args)))
+    L.append('  %s(%s);' % (fn_contract, ', '.join(args)))
     if keep_sigs:
         L.append('  if (nondet_u8() == 77) ll2c_keep_refs();  /* reachability only (library linking); after the checked call */')
     L.append('}')
+    lines['__fn_contract__'] = fn_contract
     return '\n'.join(L) + '\n', lines
 
 
@@ -665,7 +699,8 @@ def run_contract_job(job):
         if rc != 0:
             out['detail'] = 'goto-instrument --add-library failed: ' + (se + so)[-1500:]
             return out
-        cmd = ['goto-instrument', '--dfcc', 'h_entry', '--enforce-contract', job['fn']]
+        fnc = job.get('fn_contract', job['fn'])
+        cmd = ['goto-instrument', '--dfcc', 'h_entry', '--enforce-contract', fnc]
         for r in job.get('replace', []):
             cmd += ['--replace-call-with-contract', r]
         cmd += [base + '.l.gb', base + '.i.gb']
@@ -673,10 +708,10 @@ def run_contract_job(job):
         if rc != 0:
             out['detail'] = 'goto-instrument failed: ' + (se + so)[-1500:]
             return out
-        lines = {int(k): v for k, v in job['lines'].items()}
+        lines = {int(k): v for k, v in job['lines'].items() if str(k).lstrip('-').isdigit()}
         for be in job['backends']:
             common = ['cbmc', base + '.i.gb', '--json-ui', '--unwind', str(job['unwind']), '--unwinding-assertions',
-                      '--no-standard-checks'] + job.get('cbmc_flags', [])
+                      '--no-standard-checks', '--object-bits', '11'] + job.get('cbmc_flags', [])
             if be == 'sat':
                 # portfolio: cadical and minisat race (either can be pathologically slow on instances the other solves at once)
                 variants = ['cadical', 'minisat']
@@ -714,7 +749,7 @@ def run_contract_job(job):
                 pid = p.get('property', '')
                 st = p.get('status')
                 line = int(p.get('sourceLocation', {}).get('line', 0) or 0)
-                if '.postcondition.' in pid and pid.startswith(job['fn'] + '.'):
+                if '.postcondition.' in pid and pid.startswith(fnc + '.'):
                     nm = lines.get(line, 'line%d' % line)
                     clauses[nm] = st
                 elif 'unwinding assertion' in desc or '.unwind.' in pid:
@@ -739,7 +774,7 @@ def run_contract_job(job):
             if failed or failed_safety:
                 # rerun with trace to get inputs (first failing property)
                 cmd = ['cbmc', base + '.i.gb', '--json-ui', '--trace', '--unwind', str(job['unwind']), '--unwinding-assertions',
-                       '--no-standard-checks'] + out.get('backend_flags', []) + job.get('cbmc_flags', [])
+                       '--no-standard-checks', '--object-bits', '11'] + out.get('backend_flags', []) + job.get('cbmc_flags', [])
                 rc, so, se, dt = sh(cmd, timeout=job['timeout'] * 2, mem_gb=job.get('mem_gb', 8))
                 r = parse_cbmc_json(so) if rc != -999 else None
                 if r:
@@ -748,7 +783,7 @@ def run_contract_job(job):
                             continue
                         line = int(p.get('sourceLocation', {}).get('line', 0) or 0)
                         pid = p.get('property', '')
-                        if '.postcondition.' in pid and pid.startswith(job['fn'] + '.'):
+                        if '.postcondition.' in pid and pid.startswith(fnc + '.'):
                             nm = lines.get(line, 'line%d' % line)
                         else:
                             nm = 'safety:' + pid
